@@ -579,6 +579,10 @@ func (ev *Eval) lookupName(n string) (EVal, bool) {
 	if v, ok := ev.bound[n]; ok {
 		return v, true
 	}
+	// parameters shadow the result aliases (a parameter may itself be called err)
+	if v, ok := ev.env[n]; ok {
+		return v, true
+	}
 	// results
 	if n == "result" && len(ev.resTypes) >= 1 && ev.results != nil {
 		return EVal{T: ev.resTypes[0], Terms: ev.results[0]}, true
